@@ -215,7 +215,7 @@ class Runner(object):
             entries = []
             for k in range(step["n"]):
                 nlen = rng.choice([1, 2, 8, 30, 255])
-                name = bytes(rng.choice(b"abcXYZ.-_ /\xc3\xa9\xff\x80\x01") for _ in range(nlen))
+                name = bytes(rng.choice(b"abcXYZ.-_ /\xc3\xa9\xff\x80\x01\x00\n") for _ in range(nlen))
                 entries.append((rng.choice([0, 1, 0o40755, 0x80000000, wire.M32]), rng.choice([0, 5, 0x7FFFFFFF, 0x80000000, wire.M32]), rng.getrandbits(32), name))
         plan = self.sim.sync_plan
         plan.lists[step["path"].encode()] = entries
